@@ -612,33 +612,6 @@ func fieldOfAddr(fa *ssa.FieldAddr) FieldRef {
 	return FieldRef{Owner: n, Name: fieldName(fa.X.Type(), fa.Field)}
 }
 
-// calleeIs reports whether the call's static callee is pkgPath.name (name may be "(*T).M" form via FuncName-like match).
-func staticCalleeIs(c *ssa.CallCommon, pkgPath, name string) bool {
-	f := c.StaticCallee()
-	if f == nil {
-		return false
-	}
-	return funcIs(f, pkgPath, name)
-}
-
-func funcIs(f *ssa.Function, pkgPath, name string) bool {
-	if f == nil {
-		return false
-	}
-	o := f.Object()
-	if o == nil || o.Pkg() == nil || o.Pkg().Path() != pkgPath {
-		return false
-	}
-	if recv := f.Signature.Recv(); recv != nil {
-		n := namedOf(recv.Type())
-		if n == nil {
-			return false
-		}
-		return n.Obj().Name()+"."+o.Name() == name
-	}
-	return o.Name() == name
-}
-
 // callCommonOf returns the CallCommon of a Call/Go/Defer instruction.
 func callCommonOf(in ssa.Instruction) *ssa.CallCommon {
 	if ci, ok := in.(ssa.CallInstruction); ok {
